@@ -5,6 +5,7 @@
 #include <assert.h>
 #include <ctype.h>
 #include <errno.h>
+#include <fcntl.h>
 #include <pthread.h>
 #include <signal.h>
 #include <stdio.h>
@@ -275,12 +276,26 @@ Subprocess::Subprocess(const vector<string>& cmd, int stdin_fd, int stdout_fd,
   }
   if (this->child_pid == 0) {
     // in child process
-    replace_fd(stdin_fd, 0);
-    replace_fd(stdout_fd, 1);
-    replace_fd(stderr_fd, 2);
+    // Close the parent's ends of the pipes before installing the child's ends.
+    // If the caller has some of fds 0-2 closed, the parent's ends can carry
+    // those numbers, and closing them afterwards would close the stdout or
+    // stderr that was just installed.
     close(this->stdin_write_fd);
     close(this->stdout_read_fd);
     close(this->stderr_read_fd);
+    // For the same reason one of the child's ends can sit on a number in 0-2
+    // that another end has to be installed on; move such ends out of the way
+    // so the dup2 calls below cannot clobber them.
+    int* child_fds[3] = {&stdin_fd, &stdout_fd, &stderr_fd};
+    for (int z = 0; z < 3; z++) {
+      int fd = *child_fds[z];
+      if ((fd >= 0) && (fd <= 2) && (fd != z)) {
+        *child_fds[z] = fcntl(fd, F_DUPFD, 3);
+      }
+    }
+    replace_fd(stdin_fd, 0);
+    replace_fd(stdout_fd, 1);
+    replace_fd(stderr_fd, 2);
 
     if (cwd) {
       chdir(cwd->c_str());
